@@ -128,10 +128,54 @@ def gen(tier, seed):
     return recs
 
 
+def rigid_body_records(tier, seed, n0):
+    """RigidBody.aabb() must bound the body's vertices in the world frame: fresh factory bodies at general poses and
+    bodies with a history of contact queries (sessions of the hydroelastic session model, harness/props/c16.py)"""
+    from . import c16
+    rng = random.Random(seed * 31 + 5)
+    recs, n = [], n0
+
+    def rec_of(kind, lo, hi, L, tag, exc="none"):
+        nonlocal n
+        n += 1
+        tick = TOL * L / 8
+        return {"id": f"a{n}", "kind": "aabb", "tier": 3, "cls": f"RigidBody.{kind}[{tag}]", "shape": {"kind": "rigidbody", "factory": kind},
+                "rows": [[1, 0, 0]] * 3, "N": 1, "t": [0, 0, 0], "k": [0, 0, 0], "closed": False, "recon": False, "lon": [0, 0, 0], "hin": [0, 0, 0],
+                "bd": 1, "rticks": 0, "loticks": [ticks(abs(x), tick) for x in lo], "hiticks": [ticks(abs(x), tick) for x in hi],
+                "axisAligned": False, "exc": exc}
+    for i in range(18 if tier == "quick" else 300):
+        kind = rng.choice(c16.KINDS)
+        T = c16.rand_pose(rng, np.array([rng.uniform(-1, 1) for _ in range(3)]) * rng.choice((0.0, 1.0, 100.0)), general=0.9)
+        try:
+            b = c16.make_body(kind, T, 1.0)
+            W = c16.world_vertices(b)
+            box = np.asarray(b.aabb(), dtype=float)
+            recs.append(rec_of(kind, box[:, 0] - W.min(axis=0), box[:, 1] - W.max(axis=0), max(1.0, float(np.max(np.abs(W)))), "fresh"))
+        except Exception as ex:
+            recs.append(rec_of(kind, [0] * 3, [0] * 3, 1.0, "fresh", type(ex).__name__))
+    ops = []
+    for i in range(10 if tier == "quick" else 150):
+        h = []
+        for _ in range(4):
+            b1, b2 = rng.sample(c16.NAMES, 2)
+            h.append(rng.choice(({"op": "cf", "b1": b1, "b2": b2, "bp": rng.choice(("brute", "tree")), "det": False, "how": "-"},
+                                 {"op": "tree", "b1": b1, "b2": b1, "bp": "-", "det": False, "how": "-"},
+                                 {"op": "aabb", "b1": b1, "b2": b1, "bp": "-", "det": False, "how": "-"})))
+        h += [{"op": "aabb", "b1": nm, "b2": nm, "bp": "-", "det": False, "how": "-"} for nm in c16.NAMES]
+        ops.append((f"h{i}", seed * 104729 + i, h, None, True))
+    from concurrent.futures import ProcessPoolExecutor
+    with ProcessPoolExecutor(max_workers=16) as ex:
+        for evs, spec, obs in ex.map(c16.session, ops, chunksize=1):
+            for o in obs:
+                recs.append(rec_of(o["kind"], o["lo"], o["hi"], o["L"], "after " + "/".join(f"{x['op']}:{x['b1']}{x['b2']}" for x in o["hist"][:4])))
+    return recs
+
+
 def run(tier, seed):
     env.setup()
     res = Result("C04", tier, seed)
     recs = gen(tier, seed)
+    recs += rigid_body_records(tier, seed, len(recs))
     byid = {r["id"]: r for r in recs}
     rejects = trace.judge(recs, "shapes", "ShapeTrace", "ShapeTrace.cfg", "c04", res)
     for rid, clauses in sorted(rejects.items(), key=lambda kv: int(kv[0][1:])):
@@ -152,7 +196,7 @@ def run(tier, seed):
                             "support values are rational, otherwise and for random poses by the measured difference to the float mirror "
                             "of SupportVal; distinct by (class, shape, rotation rows)")
     res.coverage["samples"] = [recs[0], recs[len(recs) // 2], recs[-1]]
-    res.assumptions = ["RigidBody.aabb() is covered by the hydroelastic checks", "float mirror of SupportVal is checked against TLC by C03's MirrorExact clause"]
+    res.assumptions = ["float mirror of SupportVal is checked against TLC by C03's MirrorExact clause"]
     return res
 
 
